@@ -208,7 +208,17 @@ type runResult struct {
 	log         string
 }
 
+// stoppedEarly is runTest's exit code for a part that was ended because the verdict was settled.
+const stoppedEarly = -77
+
 var passedRe = regexp.MustCompile(`\[rapid\] OK, passed (\d+) tests`)
+
+// stopParts is closed when one part of the property has reported a violation: the verdict is
+// settled (exit 1), parts that are still running (possibly wedged by the same defect) are ended.
+var (
+	stopParts     = make(chan struct{})
+	stopPartsOnce sync.Once
+)
 
 func runTest(bin string, args []string, env []string, timeout time.Duration, logPath string) (int, bool, string) {
 	cmd := exec.Command(bin, args...)
@@ -223,12 +233,25 @@ func runTest(bin string, args []string, env []string, timeout time.Duration, log
 	go func() { done <- cmd.Wait() }()
 	timedOut := false
 	var err error
+	stopped := false
 	select {
 	case err = <-done:
 	case <-time.After(timeout):
 		timedOut = true
 		cmd.Process.Kill()
 		err = <-done
+	case <-stopParts:
+		// give it a moment to finish by itself (and write its statistics), then end it
+		select {
+		case err = <-done:
+		case <-time.After(20 * time.Second):
+			stopped = true
+			cmd.Process.Kill()
+			<-done
+		}
+	}
+	if stopped {
+		buf.WriteString("\nvcheck: ended early, another part of this property had already reported a violation\n")
 	}
 	os.MkdirAll(filepath.Dir(logPath), 0o755)
 	os.WriteFile(logPath, buf.Bytes(), 0o644)
@@ -238,6 +261,9 @@ func runTest(bin string, args []string, env []string, timeout time.Duration, log
 		if ee, ok := err.(*exec.ExitError); ok {
 			code = ee.ExitCode()
 		}
+	}
+	if stopped {
+		return stoppedEarly, false, buf.String()
 	}
 	return code, timedOut, buf.String()
 }
@@ -402,9 +428,15 @@ func runProperty(p propCfg, tier string) int {
 			sem <- struct{}{}
 			defer func() { <-sem }()
 			tag := fmt.Sprintf("%s.p%d.s%d", p.ID, j.part, j.shard)
+			select {
+			case <-stopParts:
+				results[ji] = runResult{part: j.part, shard: j.shard, exit: stoppedEarly, log: "(not started)"}
+				return
+			default:
+			}
 			foundDir := filepath.Join(work, "found."+tag)
 			statsPrefix := filepath.Join(work, "stats."+tag)
-			timeout := 20 * time.Minute
+			timeout := 8 * time.Minute // quick parts take under a minute; a wedged one is inconclusive
 			if tier == "thorough" {
 				timeout = 90 * time.Minute
 			}
@@ -438,6 +470,9 @@ func runProperty(p propCfg, tier string) int {
 			if _, err := os.Stat(filepath.Join(foundDir, "last.json")); err == nil {
 				r.foundFile = filepath.Join(foundDir, "last.json")
 			}
+			if r.foundFile != "" || (code != 0 && code != stoppedEarly && strings.Contains(out, "WARNING: DATA RACE")) {
+				stopPartsOnce.Do(func() { close(stopParts) })
+			}
 			results[ji] = r
 		}(ji, j)
 	}
@@ -452,6 +487,8 @@ func runProperty(p propCfg, tier string) int {
 			dst := keepFound(p.ID, r.foundFile)
 			violationLines = append(violationLines, fmt.Sprintf("VIOLATION property=%s replay=%s", p.ID, dst))
 			fmt.Fprintf(os.Stderr, "vcheck: %s part %s shard %d failed; log %s\n%s\n", p.ID, j.cfg.Test, r.shard, r.log, tailOf(r.out, 25))
+		case r.exit == stoppedEarly:
+			fmt.Fprintf(os.Stderr, "vcheck: %s part %s shard %d ended early (verdict settled by another part); log %s\n", p.ID, j.cfg.Test, r.shard, r.log)
 		case r.timedOut:
 			infra++
 			fmt.Fprintf(os.Stderr, "vcheck: %s part %s shard %d timed out (inconclusive); log %s\n", p.ID, j.cfg.Test, r.shard, r.log)
